@@ -53,7 +53,8 @@ class UnitDomain(EffectDomain):
         if name.startswith("std::collections::BTreeMap::<K, V") and name.endswith("::is_empty"):
             return self.fork(store, T("is_empty", a))
         if name.startswith("std::collections::BTreeMap::<K, V") and name.endswith("::len"):
-            return [(T("len", a), store)]
+            # the moment the size is taken matters where the map is being changed (C09-R3): logged as an event
+            return [(T("len", a), self.with_log(store, ("len", a)))]
         if name.startswith("std::collections::BTreeMap::<K, V") and name.endswith("::iter") or \
                 (("IntoIterator>::into_iter" in name or name == "std::iter::IntoIterator::into_iter") and isinstance(a, (Sym, T)) and not isinstance(a, IterV)):
             if isinstance(a, (Sym, T)):
